@@ -108,12 +108,7 @@ impl Parser for IntConstant {
             map_res(recognize(tuple((tag("-"), digit1))), |d: &str| {
                 d.parse::<i64>().map(IntConstant)
             }),
-            preceded(
-                tag("-"),
-                map_res(IntConstant::parse, |d| {
-                    d.0.checked_neg().map(IntConstant).ok_or("integer overflow")
-                }),
-            ),
+            negated_int_constant,
             preceded(
                 tag("0x"),
                 map_res(hex_digit1, |d| i64::from_str_radix(d, 16).map(IntConstant)),
@@ -124,6 +119,26 @@ impl Parser for IntConstant {
             }),
         ))(input)
     }
+}
+
+/// Two or more leading '-': the run is folded here. Negating by recursion took one stack frame
+/// per sign, so a long run overflowed the stack.
+fn negated_int_constant(input: &str) -> IResult<&str, IntConstant> {
+    let signs = input.bytes().take_while(|b| *b == b'-').count();
+    if signs < 2 {
+        return Err(nom::Err::Error(nom::error::Error::new(
+            input,
+            nom::error::ErrorKind::Tag,
+        )));
+    }
+    map_res(IntConstant::parse, |d| {
+        let d = if signs % 2 == 0 {
+            d.0.checked_neg()
+        } else {
+            (d.0 != i64::MIN).then_some(d.0)
+        };
+        d.map(IntConstant).ok_or("integer overflow")
+    })(&input[signs - 1..])
 }
 
 impl Parser for DoubleConstant {
